@@ -108,6 +108,13 @@ async def build_engine(model, renv, cfg=None, sdl=None, engine_kwargs=None, dire
         if ftr: kw["type_resolver"] = make_type_resolver(b, ftr, "field:" + coord)
         if "parent_concurrently" in cfg: kw["parent_concurrently"] = cfg["parent_concurrently"]
         if "list_concurrently" in cfg: kw["list_concurrently"] = cfg["list_concurrently"]
+        if "mixed" in cfg:
+            # per-field settings drawn independently (absent / True / False), deterministic in (seed, coordinate)
+            import random as _rnd
+            mr = _rnd.Random(f"{cfg['mixed']}:{coord}")
+            for key in ("parent_concurrently", "list_concurrently"):
+                ch = mr.choice([None, True, False])
+                if ch is not None: kw[key] = ch
         Resolver(coord, schema_name=b.schema_name, **kw)(make_resolver(b, coord, spec))
     for tn, spec in (renv.get("typeResolvers") or {}).items():
         TypeResolver(tn, schema_name=b.schema_name)(make_type_resolver(b, spec, "type:" + tn))
